@@ -23,11 +23,14 @@ JoinU(p) == IF p = <<>> THEN "" ELSE IF Len(p) = 1 THEN p[1] ELSE p[1] \o "_" \o
 Sanitize(seg) == CASE seg = "a.b" -> "a_b" [] OTHER -> seg
 
 (* the name is computed from the PATH of the target's location and the fragment only: scheme and host are dropped *)
-InternalName(file, name) == JoinU([i \in DOMAIN file |-> Sanitize(file[i])] \o <<name>>)
+RECURSIVE TrimDots(_)
+TrimDots(file) == IF file # <<>> /\ Head(file) \in {".", ".."} THEN TrimDots(Tail(file)) ELSE file     \* strings.TrimLeft(filePath, "./")
+InternalName(file, name) == JoinU([i \in DOMAIN TrimDots(file) |-> Sanitize(TrimDots(file)[i])] \o <<name>>)
 InternalNameAt(origin, file, name) == InternalName(file, name)
 Origins == {"", "https://m.example"}
 
-Files == {<<"a">>, <<"b">>, <<"sub", "a">>, <<"sub_a">>, <<"a.b">>, <<"a_b">>, <<"sub", "deep", "a">>, <<"sub", "deep_a">>}
+Files == {<<"a">>, <<"b">>, <<"sub", "a">>, <<"sub_a">>, <<"a.b">>, <<"a_b">>, <<"sub", "deep", "a">>, <<"sub", "deep_a">>,
+          <<"shared", "x">>, <<"..", "shared", "x">>}      \* the last one lies beside the root's directory: leading "./" and "../" are trimmed
 Names == {"X", "X_Y", "a_X"}
 Targets == Files \X Names
 OTargets == Origins \X Files \X Names
